@@ -195,6 +195,26 @@ static FWire c09(Reader& r) {
         for (size_t i=0;i<W.nlin();++i) for (size_t j=0;j<W.ncol();++j) { const SparseMatrix& C=W; o.push_back(exact(C(i,j))); }
         return FWire{o,{}};
     }
+    if (op==19) {
+        // label rule of Sensors::load: tokens per line, n, per line: first token float-looking (1) or integer-looking (0), its integer part, last column
+        size_t nt=r.n(), n=r.n(); std::vector<size_t> ds, vs; std::vector<ll> ws;
+        for (size_t k=0;k<n;++k) ds.push_back(r.n());
+        for (size_t k=0;k<n;++k) vs.push_back(r.n());
+        for (size_t k=0;k<n;++k) ws.push_back(r.z());
+        static const char* mid[] = {"0.25","1.5","0.0","0.0","1.0","0.5","0.75"};
+        std::ostringstream txt;
+        for (size_t k=0;k<n;++k) {
+            txt << vs[k]; if (ds[k]) txt << ".5";
+            for (size_t c=1;c+1<nt;++c) txt << " " << mid[(c-1)%7];
+            txt << " " << ws[k] << ".0\n";
+        }
+        std::istringstream in(txt.str());
+        Sensors s; s.load(in);
+        SparseMatrix W=s.getWeightsMatrix();
+        Wire o{ST_OK,s.hasNames()?1:0,(ll)s.getNumberOfSensors()};
+        for (size_t i=0;i<W.nlin();++i) for (size_t j=0;j<W.ncol();++j) { const SparseMatrix& C=W; o.push_back(exact(C(i,j))); }
+        return FWire{o,{}};
+    }
     if (op==5) {
         size_t n=r.n(); std::vector<size_t> ls; std::vector<ll> ws;
         for (size_t k=0;k<n;++k) ls.push_back(r.n());
